@@ -978,4 +978,4 @@ func c03Gen(tier string, rng *rand.Rand, emit func(string)) map[string]interface
 	}
 }
 
-func init() { register("C03", &Prop{Gen: c03Gen, Run: c03Run, CaseTimeout: 2 * time.Second}) }
+func init() { register("C03", &Prop{Gen: c03Gen, Run: c03Run, CaseTimeout: 5 * time.Second}) }
